@@ -1,10 +1,27 @@
 package node
 
-import "github.com/siyul-park/uniflow/pkg/port"
+import (
+	"slices"
+
+	"github.com/siyul-park/uniflow/pkg/packet"
+	"github.com/siyul-park/uniflow/pkg/port"
+)
 
 // Node represents a unit that processes packets with input and output ports.
 type Node interface {
 	In(name string) *port.InPort   // Returns the input port by name.
 	Out(name string) *port.OutPort // Returns the output port by name.
 	Close() error                  // Closes the node and returns any error.
+}
+
+// derive returns pck, or a copy of it when pck is one of the packet objects the node's tracer
+// already follows (a packet read from an in-port, or an output linked before it). The tracer
+// identifies a packet by its id and keeps one set of response slots per id: linking or writing an
+// object it already follows would share those slots between unrelated writes. Readers receive
+// copies of whatever is written (Writer.Write), so the copy cannot be observed downstream.
+func derive(pck *packet.Packet, followed ...*packet.Packet) *packet.Packet {
+	if pck != nil && slices.Contains(followed, pck) {
+		return packet.New(pck.Payload())
+	}
+	return pck
 }
